@@ -230,16 +230,6 @@ def exclusions (d : Doc2 Json) : List String :=
         | _ => false)
    then ["SharedFormParamDefClash"] else []) ++
   (if (opParams d ++ sharedVals d).any (fun p => p.loc == "body" && p.schema.isNone) then ["BodyWithoutSchema"] else []) ++
-  (if d.paths.any (fun p => p.ops.any (fun o =>
-        -- since c26cd6a only a request body without x-originalParamName needs a free name: what formDataBody
-        -- builds from form parameters (inline or shared), or a body parameter without a name
-        o.params.any (fun q => match q with
-          | .val v => v.loc == "formData" || (v.loc == "body" && v.name == "")
-          | .ref _ n => match alookup n d.params with | some (.val v) => v.loc == "formData" | _ => false) &&
-        ["body", "requestBody"].all (fun nm => o.params.any (fun q => match q with
-          | .val v => v.loc != "body" && v.loc != "formData" && v.name == nm
-          | .ref _ n => match alookup n d.params with | some (.val v) => v.loc != "body" && v.loc != "formData" && v.name == nm | _ => false))))
-   then ["BodyNameClash"] else []) ++
   (if d.defs.any (fun (k, _) => !identOK k) || d.params.any (fun (k, _) => !identOK k) ||
       d.responses.any (fun (k, _) => !identOK k) || d.secs.any (fun (k, _) => !identOK k)
    then ["BadComponentName"] else []) ++
